@@ -328,9 +328,34 @@ def handleGlue (op : String) (j : Json) : Except String Json := do
     return obj [("res", Json.arr res.toArray), ("default", ofNatList (nontrivialBonds Mtag))]
   | _ => throw s!"unknown op {op}"
 
+/-! ### part D: basis permutation of `from_product_state` -/
+
+def handlePstate (j : Json) : Except String Json := do
+  let permute ← getBool (← field j "permute")
+  let sites ← listOf (fun (e : Json) => do
+    let d ← getNat (← field e "d")
+    let perm ← natList (← field e "perm")
+    let lab ← getBool (← field e "labelled")
+    let ej ← field e "entry"
+    let ent ← (match ej.getNat? with
+      | .ok k => pure (PState.idx (α := C) k)
+      | .error _ => do
+        let arr ← getFlat ej
+        pure (PState.vec (fun p => arr.getD p 0)))
+    pure (d, perm.toArray, lab, ent)) (← field j "sites")
+  let sa := sites.toArray
+  let dflt : Nat × Array Nat × Bool × PState C := (0, #[], false, PState.idx 0)
+  let perm : Nat → Nat → Nat := fun i p => ((sa.getD i dflt).2.1).getD p p
+  let labelled : Nat → Bool := fun i => (sa.getD i dflt).2.2.1
+  let ps : Nat → PState C := fun i => (sa.getD i dflt).2.2.2
+  let vecs := (List.range sites.length).map (fun i =>
+    encList ((List.range (sa.getD i dflt).1).map (fun p => localAmp perm permute labelled ps i p)))
+  return obj [("vecs", Json.arr vecs.toArray)]
+
 def handle (j : Json) : Except String Json := do
   let op ← getStr (← field j "op")
-  if op == "cover" then handleCover j
+  if op == "pstate" then handlePstate j
+  else if op == "cover" then handleCover j
   else if op == "charge" then handleCharge j
   else handleGlue op j
 
